@@ -244,6 +244,9 @@ def oracle_vectors(case, res):
     bad = []
     if "err" in res:
         return ["implementation raised %s" % res["err"]]
+    if res.get("mutated"):
+        bad.append("the function(s) %s modified the arrays passed to them (later calls on the same vectors then see other data)"
+                   % sorted(set(res["mutated"])))
     n = len(case["vecs"])
     pairs = [(i, j) for i in range(n) for j in range(n) if i != j]
     prop = {tuple(p) for p in case["prop"]} | {(p[1], p[0]) for p in case["prop"]}
@@ -341,6 +344,16 @@ def oracle_helpers(case, res):
             bad.append("sparse_%s raised / returned %s" % (name, str(got)[:200]))
         elif got != exp[name]:
             bad.append("sparse_%s returned (indices, values) %s, dense arithmetic gives %s" % (name, got, exp[name]))
+    # later calls on the SAME arrays (after sum, diff, mul, union have run on them)
+    if "sum_again" in res and not isinstance(res["sum_again"], dict) and res["sum_again"] != exp["sum"]:
+        bad.append("a second sparse_sum on the same arrays returned %s, dense arithmetic gives %s (an earlier helper call "
+                   "changed its arguments)" % (res["sum_again"], exp["sum"]))
+    if "diff_swapped" in res and not isinstance(res["diff_swapped"], dict):
+        want = [exp["diff"][0], [-v for v in exp["diff"][1]]]
+        if res["diff_swapped"] != want:
+            bad.append("sparse_diff(y, x) on the same arrays returned %s, dense arithmetic gives %s" % (res["diff_swapped"], want))
+    if res.get("mutated"):
+        bad.append("the helper(s) %s modified the index / data arrays passed to them" % sorted(set(res["mutated"])))
     return bad
 
 
